@@ -66,7 +66,8 @@ def run(tier):
     graph = dict(ec.GRAPH_Q, MaxOps=3, MaxFile=4)
     seeded = dict(ec.SEEDED, MaxOps=2 if quick else 3, MaxFile=7)
     invs = ["Inv_CrashAdmissible", "Inv_FixedPoint"]
-    tlc(chk, "MC_Crash_base", base, "SpecC", invs, 1200)
+    # (Crash.tla: a recovery is followed by further calls and further crashes -- action Resume)
+    tlc(chk, "MC_Crash_base", base if quick else dict(base, MaxOps=4), "SpecC", invs, 1200 if quick else 3000)
     if not quick:
         tlc(chk, "MC_Crash_graph", graph, "SpecC", invs, 3000)
         tlc(chk, "MC_Crash_seeded", seeded, "SpecC", invs, 3000)
